@@ -64,10 +64,37 @@ func runC02(c *Ctx) {
 		allParam  *ssa.Parameter
 	}
 	var nows []nowInfo
+	roleSched, roleNow := map[*ssa.Function]bool{}, map[*ssa.Function]bool{} // the park functions and the attempt functions, by role
 	for _, sp := range specs {
 		now := p.Method("sonic", sp.owner, sp.now)
-		sched := p.Method("sonic", sp.owner, sp.sched)
 		handler := p.Method("sonic", sp.handlerType, sp.handler)
+		sched := p.TryMethod("sonic", sp.owner, sp.sched)
+		if sched == nil {
+			// found by role: the function of the owner that installs this reactor's handler (the two directions may share one)
+			slotSet := p.Method("internal", "Slot", "Set").Object().(*types.Func)
+			for _, fn := range p.Funcs {
+				if pk, tn := recvTypeName(fn); pk != modPath || tn != sp.owner || fn.Parent() != nil {
+					continue
+				}
+				for _, call := range callsTo(fn, slotSet) {
+					if a := call.Common().Args; len(a) == 3 {
+						if hf, _, _ := handlerFunction(p, a[2]); hf == handler {
+							sched = fn
+						}
+					}
+				}
+			}
+			if sched == nil {
+				infra("anchor: the function of sonic.%s that installs %s.%s not found", sp.owner, sp.handlerType, sp.handler)
+			}
+		}
+		roleSched[sched], roleNow[now] = true, true
+		schedCountIdx := 1
+		for i, prm := range sched.Params {
+			if b, ok := prm.Type().Underlying().(*types.Basic); ok && b.Kind() == types.Int {
+				schedCountIdx = i
+			}
+		}
 		progF := p.Field("sonic", sp.handlerType, sp.progField)
 		bF := p.Field("sonic", sp.handlerType, "b")
 		allF := p.Field("sonic", sp.handlerType, sp.allField)
@@ -144,8 +171,8 @@ func runC02(c *Ctx) {
 			what := ""
 			if isDynamicFuncCall(call) && len(call.Common().Args) == 2 {
 				count, what = call.Common().Args[1], "completion"
-			} else if isCallToFn(in, sched) {
-				count, what = call.Common().Args[1], "re-schedule"
+			} else if isCallToFn(in, sched) && schedCountIdx < len(call.Common().Args) {
+				count, what = call.Common().Args[schedCountIdx], "re-schedule"
 			}
 			if what == "" {
 				return
@@ -239,7 +266,7 @@ func runC02(c *Ctx) {
 							}
 						}
 						if b, ok := prm.Type().Underlying().(*types.Basic); ok && b.Kind() == types.Int {
-							if pinName(callee) == "asyncReadNow" || pinName(callee) == "asyncWriteNow" || pinName(callee) == "scheduleRead" || pinName(callee) == "scheduleWrite" {
+							if roleNow[callee] || roleSched[callee] {
 								if !isConstInt(a, 0) {
 									zeroOK = false
 								}
@@ -451,7 +478,7 @@ func runC02(c *Ctx) {
 				if !ok {
 					continue
 				}
-				if callee := call.Common().StaticCallee(); callee != nil && (pinName(callee) == "scheduleRead" || pinName(callee) == "scheduleWrite") {
+				if callee := call.Common().StaticCallee(); callee != nil && roleSched[callee] {
 					sched = true
 				}
 				if isDynamicFuncCall(call) {
